@@ -252,6 +252,9 @@ def execute(scn):
                 if f.injected() is not None:
                     fired = True
                     stats['fired_sql_error'] = 1
+                    from evosim.props import c07 as _c07
+                    detail['fault_fired_on'] = alias
+                    detail['fault_phase'] = _c07._phase(f)
                     so = snapshot.snapshot(ws, other)
                     if common.state_equal(prev[other], so):
                         viols.append(violation(
